@@ -350,6 +350,8 @@ def reduction(cx, b, d):
         op = el = None
         if r[0] == 'add' and len(r) == 3 and ACC in r[1:]:
             op, el = 'sum', (r[2] if r[1] == ACC else r[1])
+        elif r[0] == 'call' and r[1] in ('Matrix::add', 'OPoint::add') and len(r) == 4 and r[2] == ACC:
+            op, el = 'sum', r[3]              # vector accumulation acc + e
         elif r[0] == 'call' and r[1] in ('f64::max', 'f64::min') and len(r) == 4 and ACC in r[2:]:
             op, el = r[1].split('::')[1], (r[3] if r[2] == ACC else r[2])
         if op is None or any(x == ACC for x in subterms(el)):
@@ -362,7 +364,8 @@ def reduction(cx, b, d):
         if len(lp) == 1 and len(inits) == 1:
             car = simplify(b.dag().carried(lp[0][1], lp[0][2]))
             ACC = '(anyphi (loop))'
-            for pat, op in ((f'(add {ACC} $e)', 'sum'), (f'(call f64::max {ACC} $e)', 'max'), (f'(call f64::max $e {ACC})', 'max'),
+            for pat, op in ((f'(add {ACC} $e)', 'sum'), (f'(mut *::add_assign _ {ACC} $e)', 'sum'), (f'(call Matrix::add {ACC} $e)', 'sum'),
+                            (f'(call f64::max {ACC} $e)', 'max'), (f'(call f64::max $e {ACC})', 'max'),
                             (f'(call f64::min {ACC} $e)', 'min'), (f'(call f64::min $e {ACC})', 'min')):
                 m = match(pat, car)
                 if m is None or find('(loop)', m['e']) is not None and any(x[0] == 'loop' and x[1] == lp[0][1] for x in subterms(m['e'])):
